@@ -1,6 +1,7 @@
 package btree
 
 import (
+	"github.com/emirpasic/gods/v2/maps"
 	"strings"
 	"encoding/json"
 	"github.com/emirpasic/gods/v2/containers"
@@ -249,7 +250,7 @@ func vLevels(cell **Node[int, int], depth int) int {
 }
 
 func vThunkFits(s *VSum, parent *Node[int, int], hasLo bool, lo int, hasHi bool, hi int, levels int, root bool) {
-	v.Assert(s.levels == levels, "C01,C07:leaves-at-same-depth")
+	v.Assert(s.levels == levels, "C01,C07:inv-leaves-at-same-depth")
 	v.Assert(s.root == root, "C01,C07:inv-thunk-root-fill")
 	if hasLo {
 		v.Assert(s.hasLo, "inv-t-haslo")
@@ -273,14 +274,14 @@ func vCheck(cell **Node[int, int], parent *Node[int, int], hasLo bool, lo int, h
 	}
 	n := *cell
 	if n == nil {
-		v.Assert(levels == 0, "C01,C07:leaves-at-same-depth")
+		v.Assert(levels == 0, "C01,C07:inv-leaves-at-same-depth")
 		return 0
 	}
 	if depth > 12 {
 		v.Assert(false, "inv-cyclic-or-too-deep")
 		return 0
 	}
-	v.Assert(levels > 0, "C01,C07:leaves-at-same-depth")
+	v.Assert(levels > 0, "C01,C07:inv-leaves-at-same-depth")
 	v.Assert(n.Parent == parent, "C01,C07:inv-parent")
 	if d := v.PeekSlice[*Entry[int, int], VNode](&n.Entries); d != nil && vUntouched(d) {
 		// the node object exists but its content was never read: it is still summarised by its original summary
@@ -294,12 +295,12 @@ func vCheck(cell **Node[int, int], parent *Node[int, int], hasLo bool, lo int, h
 	if root {
 		loE = 1
 	}
-	v.Assert(e >= loE, "C01,C07:node-underfull")
-	v.Assert(e <= m-1, "C01,C07:node-overfull")
+	v.Assert(e >= loE, "C01,C07:inv-node-underfull")
+	v.Assert(e <= m-1, "C01,C07:inv-node-overfull")
 	if levels <= 1 {
-		v.Assert(len(n.Children) == 0, "C01,C07:leaf-with-children")
+		v.Assert(len(n.Children) == 0, "C01,C07:inv-leaf-with-children")
 	} else {
-		v.Assert(len(n.Children) == e+1, "C01,C07:k-children-k-1-keys")
+		v.Assert(len(n.Children) == e+1, "C01,C07:inv-k-children-k-1-keys")
 	}
 	hasPrev, prev := hasLo, lo
 	for i := 0; i < e; i++ {
@@ -339,7 +340,7 @@ func VInv(t *Tree[int, int]) {
 	v.Assert(t.Size() == size, "C01,C07,C15:size")
 	v.Assert(t.Empty() == (size == 0), "C15:empty")
 	v.Assert(size >= 0, "C15:size-nonneg")
-	v.Assert(t.Height() == lv, "C07:height-is-number-of-levels")
+	v.Assert(t.Height() == lv, "C07:inv-height-is-number-of-levels")
 }
 
 // floor of the least n+1 for which 4*(log2(m)+1)*(log_ceil(m/2)(n+1)+1) >= c, by order m (rounded down: never stricter
@@ -620,4 +621,10 @@ func VHString() {
 	s := c.String()
 	v.EndOp()
 	v.Assert(strings.HasPrefix(s, "BTree"), "C15:string-begins-with-container-name")
+}
+
+// VHHistory: D operations in a row from the constructor (see VMapHistory).
+func VHHistory() {
+	t := NewWith[int, int](v.CfgOr("m", 3), vl.Cmp)
+	maps.VMapHistory(t, maps.VKind{Name: "BTree", SortedKeys: true, Inv: func() { VInv(t) }})
 }
